@@ -782,11 +782,21 @@ def enc_elem(schema, f, v, rng, knobs):
     return enc_key(f.id, wire_type(t), rng, pad) + enc_scalar(t, x, rng, pad)
 
 
+def _type_has_msg_oneof(schema, ty):
+    return any(f.oneof and f.type == T_MESSAGE for f in schema.msgs[ty].fields)
+
+
 def encode_records(schema, msg, rng=None, knobs=None):
     """list of records (bytes) in canonical order: fields by descriptor order, then unknowns"""
     knobs = knobs or {}
     m = schema.msgs[msg['ty']]
     recs = []
+    top_knobs = knobs
+    if knobs.get('ref_compared'):
+        # everything encoded below this message is 'nested' (see the F23 note further down)
+        knobs_sub = dict(knobs, multi_oneof=False, nested=True)
+    else:
+        knobs_sub = knobs
     for fi, (f, s) in enumerate(zip(m.fields, msg['slots'])):
         if fi in msg.get('drop', ()):
             continue                      # deliberately left off the wire (C11 generator)
@@ -818,7 +828,7 @@ def encode_records(schema, msg, rng=None, knobs=None):
                     recs.append(enc_key(f.id, 2, rng, knobs.get('pad', False)) + enc_len(len(payload), rng, knobs.get('pad', False)) + payload)
             else:
                 for v in vals:
-                    recs.append(enc_elem(schema, f, v, rng, knobs))
+                    recs.append(enc_elem(schema, f, v, rng, knobs_sub))
         else:
             if not is_present(f, s):
                 if (knobs.get('explicit_zero') and f.label == L_NONE and not f.oneof and f.type != T_MESSAGE and rng.random() < 0.5):
@@ -840,19 +850,27 @@ def encode_records(schema, msg, rng=None, knobs=None):
                 if others:
                     g = rng.choice(others)
                     recs.append(enc_elem(schema, g, rand_val(rng, schema, g, 9), rng, knobs))
-            if (knobs.get('multi_occ') and f.type == T_MESSAGE and s[2][0] == 'msg' and s[2][1] is not None and rng.random() < 0.6):
+            if (knobs.get('multi_occ') and f.type == T_MESSAGE and s[2][0] == 'msg' and s[2][1] is not None and rng.random() < 0.6
+                    and not (knobs.get('nested') and _type_has_msg_oneof(schema, f.sub))):
+                # (known finding F23 at depth: inside an embedded message that itself arrives in several occurrences or parts,
+                #  a sub-message whose oneof is switched away from a message member and back -- by a stale member, or by extra
+                #  occurrences selecting different members -- is merged by protobuf-c where the reference starts afresh.
+                #  Workloads judged by the reference (`ref_compared`) therefore keep stale oneof members and repeated / split
+                #  occurrences of such sub-messages to the top level; the fixed F23 input and the oneof corpora keep the
+                #  shapes visible)
                 # one or two EARLIER, independent occurrences of the same embedded message (complete in their
                 # required fields); what the merge must yield is decided by the reference implementation
                 for k in range(rng.choice([1, 1, 2])):
                     e = matrix_earlier(rng, schema, f.sub, s[2][1]) if (knobs.get('matrix') and k == 0) else rand_msg(rng, schema, f.sub, depth=2)
-                    body = encode(schema, e, rng, dict(knobs, multi_occ=False, split_msg=False, later_occ=knobs.get('later_occ') or k > 0))
+                    body = encode(schema, e, rng, dict(knobs_sub, multi_occ=False, split_msg=False, later_occ=knobs.get('later_occ') or k > 0))
                     recs.append(enc_key(f.id, 2, rng, knobs.get('pad', False)) + enc_len(len(body), rng, knobs.get('pad', False)) + body)
-                recs.append(enc_elem(schema, f, s[2], rng, dict(knobs, later_occ=True)))
+                recs.append(enc_elem(schema, f, s[2], rng, dict(knobs_sub, later_occ=True)))
                 continue
             if (knobs.get('split_msg') and f.type == T_MESSAGE and s[2][0] == 'msg' and s[2][1] is not None
-                    and not any(x.label == L_REQ for x in schema.msgs[f.sub].fields) and rng.random() < 0.7):
+                    and not any(x.label == L_REQ for x in schema.msgs[f.sub].fields) and rng.random() < 0.7
+                    and not (knobs.get('nested') and _type_has_msg_oneof(schema, f.sub))):
                 # the sub-message delivered in 2..3 occurrences that the parser must merge
-                sub_recs = encode_records(schema, s[2][1], rng, knobs)
+                sub_recs = encode_records(schema, s[2][1], rng, knobs_sub)
                 k = rng.choice([2, 2, 3])
                 cuts = sorted(rng.randrange(0, len(sub_recs) + 1) for _ in range(k - 1))
                 parts = [sub_recs[a:b] for a, b in zip([0] + cuts, cuts + [len(sub_recs)])]
@@ -861,7 +879,7 @@ def encode_records(schema, msg, rng=None, knobs=None):
                     recs.append(enc_key(f.id, 2, rng, knobs.get('pad', False)) + enc_len(len(body), rng, knobs.get('pad', False)) + body)
                 msg.setdefault('_split', True)
                 continue
-            recs.append(enc_elem(schema, f, s[2], rng, knobs))
+            recs.append(enc_elem(schema, f, s[2], rng, knobs_sub))
     for tag, wt, data in msg['unk']:
         recs.append(enc_key(tag, wt, rng, knobs.get('pad', False)) + bytes(data))
     return recs
